@@ -188,10 +188,15 @@ protected:
     //when try_lock fails, we need to register itself to waiting queue (_requests)
     bool subscribe(awaiter *aw) {
         //so subscribe to _requests
-        aw->subscribe(_requests);
-        //now check result of _next, which gives as hint, how lock operation ended
-        //if the _next is null, the lock was unlock
-        if (aw->_next== nullptr) [[likely]] {
+        //once the awaiter is published, the current owner can unlock, clear its _next and
+        //resume (and destroy) it at any time - so the awaiter must not be read again.
+        //The decision is made on the value observed by the successful CAS
+        awaiter *prev = nullptr;
+        do {
+            aw->_next = prev;
+        } while (!_requests.compare_exchange_weak(prev, aw, std::memory_order_release));
+        //if the previous value was null, the lock was unlocked
+        if (prev == nullptr) [[likely]] {
             //because current awaiter will be destroyed, we need to replace self
             //with a doorman()
             //the function build_queue does this, even if there is no requests currentl
